@@ -69,6 +69,11 @@ def _loop_header(fs, f=None) -> Dict[str, object]:
     if c.get("kind") == "BinaryOperator":
         op = c.get("opcode")
         lhs = ref_name(c["inner"][0])
+        # `bound > i` reads `i < bound`; `i != bound` (either side) stops at the same place for a counter that goes up by one from 0
+        if op == ">" and ref_name(c["inner"][1]) == var:
+            op, lhs = "<", var
+        elif op == "!=" and var in (ref_name(c["inner"][0]), ref_name(c["inner"][1])):
+            op, lhs = "<", var
     steps: Dict[str, str] = {}
     for x in walk(inc):
         if x.get("kind") == "UnaryOperator" and x.get("opcode") in ("++", "--"):
